@@ -127,9 +127,10 @@ def run(ctx: Ctx) -> None:
             cer = g.cer(p_unknown=0.05)
             cer["hints"] = {k: f"Hinweis {k} von {j}" for k in cer["hints"]}
             cer["packages"] = {"7P": rng.choice(["[1] U [2]", "[2] O [3]"]), "8P": rng.choice(["[3] O [4]", "[4]"]), "9P": rng.choice(["[5]", "[1] X [5]"])}
-            jobs.append((V.expr_text(x), cer, rng.randint(0, 3)))
+            jobs.append((V.expr_text(x), cer, rng.choice([0, 0, 1, 2, 3, 5])))
 
         async def one(s, cer, pre):
+            S.JOB_DELAY.set(pre * 3)  # this evaluation's requirement evaluators are slower than the others' by a job-specific amount
             for _ in range(pre):
                 await asyncio.sleep(0)
             evalenv.set_cer(evalenv.make_cer(rc=cer["rc"], fc={k: (v, None if v else f"fc {k} of this evaluation failed: {cer['hints']['501']}") for k, v in cer["fc"].items()},
@@ -142,14 +143,18 @@ def run(ctx: Ctx) -> None:
                 return ("raises", type(e).__name__)
 
         async def alone(job):
-            return await asyncio.create_task(one(job[0], job[1], 0))
+            return await asyncio.create_task(one(job[0], job[1], 0))  # (own task: the context-local settings of one job do not reach the next)
 
         async def together():
             return await asyncio.gather(*[one(*job) for job in jobs])
 
         evalenv.current_fv.set(rng.choice([evalenv.FV, evalenv.FV_METHODS]))
         S.set_schedule({})
-        ref = [asyncio.run(alone(job)) for job in jobs]
+        ref = []
+        for job in jobs:
+            S.configure()  # fresh evaluator / provider instances: the reference must not depend on what an instance has seen before
+            ref.append(asyncio.run(alone(job)))
+        S.configure()
         for k in range(ctx.pick(3, 10)):
             S.set_schedule({} if k == 0 else {(kind, key): rng.randint(0, 4) for kind in ("rc", "fc", "hint", "pkg") for key in list(jobs[0][1]["rc"]) + list(jobs[0][1]["fc"]) + list(jobs[0][1]["hints"]) + ["7P", "8P", "9P"]})
             got = asyncio.run(together())
